@@ -8,7 +8,8 @@ EXPLANATION = ("TermFlow term equalities: (O1) every store to ChunkFooter.alloca
                "prev.allocated_bytes + (layout.size - FOOTER_SIZE) of that very chunk, with prev the value stored in the same footer's prev field (0 for the sentinel; for reset the "
                "prev link was just set to the sentinel); 'with footer' and 'without footer' sizes are distinct linear terms; (O2) allocated_bytes() is a load of the current "
                "footer's field and allocated_bytes_including_metadata() = allocated_bytes() + count(raw chunk iterator from the current footer) * size_of::<ChunkFooter>(); "
-               "(R3) only functions that acquire or release chunks store the counter.")
+               "(R3) only functions that acquire or release chunks store the counter."
+               ' (R5) current_chunk_footer only moves to a chunk acquired in the same call (no held chunk is unlinked); (R6) the raw chunk iterator that counts footers starts at the current chunk and stops only at the sentinel (C10.R2).')
 RULE = "rule instance = (rule, store site / accessor); distinct by (rule, function, site)"
 
 
